@@ -15,6 +15,18 @@ type quotaProviderValidator struct {
 
 func (qr *QuotaResourceData) Validate() error {
 	var errMsg error
+	// an empty list entry (`- ` / `- null`) decodes to a nil pointer: reject it here,
+	// everything below (and the loader) dereferences the entries
+	for index, quota := range qr.Quotas {
+		if quota == nil {
+			return fmt.Errorf("validation error: quota entry #%d is empty", index+1)
+		}
+	}
+	for index, internalLimit := range qr.InternalLimits {
+		if internalLimit == nil {
+			return fmt.Errorf("validation error: internal limit entry #%d is empty", index+1)
+		}
+	}
 	validate := validator.New()
 	singleQuotaDataList := qr.ToSingleQuotaResourceDataList()
 	for _, singleQuotaData := range singleQuotaDataList {
